@@ -50,10 +50,17 @@ def run(ctx):
     ctx.guard('C06.analysable', ctx.shared, {'X.full': 'C06.f-round-state-cleared', 'X.recv': 'C06.f-round-state-cleared', 'X.drop': 'C06.f-round-state-cleared'},
               resetrules.check_reset_discipline, ctx, f0, cfgs[0], 'X.drop', 'X.recv', 'X.full')
     ctx.guard('C06.analysable', panic_census, ctx, f0, cfgs[0])
+    ctx.rule('C06.i-one-predicate-per-codec', 'supports/validate of every encoder, decoder and rate type of one kind resolve to one predicate (associated types included): none of them reports a supported configuration as unsupported (clause shared with C08.a)')
+    from . import c08 as c08_
+    ctx.guard('C06.analysable', ctx.shared, {'C08.a-one-definition': 'C06.i-one-predicate-per-codec'}, c08_.one_definition, ctx, f0, cfgs[0])
     ctx.rule('C06.h-validated-by-the-selected-rate', 'every use of a dedicated codec by the default rate (validate included) is governed by the rate decision for the same counts: a supported configuration is never rejected by the other rate\'s predicate (clause shared with C09.b)')
     from . import c09
     ctx.guard('C06.analysable', ctx.shared, {'C09.b-single-source': 'C06.h-validated-by-the-selected-rate'}, c09.check, ctx, f0, cfgs[0])
     ctx.guard('C06.analysable', c04.store_resize_complete, ctx, f0, cfgs[0], 'C06.d-store-geometry')
+    ctx.rule('C06.j-engines-run-one-schedule', 'valid use does not panic whichever engine runs it: the slicing and split arithmetic of the transform schedules, in range for the reference form, is the same in every optimised engine (clause shared with C03.a)')
+    from . import c03 as c03_
+    for c_ in ('x86_64', 'aarch64'):
+        ctx.guard('C06.analysable', ctx.shared, {'C03.a-schedule-siblings': 'C06.j-engines-run-one-schedule'}, c03_.schedules, ctx, ctx.facts(c_), c_)
     ctx.guard('C06.analysable', ctx.shared, {'C10.b-iterators': 'C06.e-one-shot-items-validated', 'C10.b-items-reach-add': 'C06.e-one-shot-items-validated'}, c10.both, ctx, f0, cfgs[0])
     for cfg in cfgs:
         facts = ctx.facts(cfg)
@@ -136,9 +143,24 @@ def check_truthful(ctx, facts, cfg):
         sites = []
 
         def mk(fn):
+            # `let err = Error::X { .. };` used at several `Err(err)` exits: the value is judged where it is used
+            bound = {}
+            deferred = set()
+            for g_ in [fn] + [facts.fns[q] for q in inline if q in facts.fns]:
+                if not g_.hir:
+                    continue
+                for (m_, _) in core.hir_find(g_.hir, lambda m: m.get('k') == 'let' and isinstance(m.get('pat'), dict) and m['pat'].get('k') == 'bind'
+                                             and m['pat'].get('mode', '').endswith('Not)') and isinstance(m.get('init'), dict) and 'else' not in m):
+                    sn = core.strip_refs(m_['init'])
+                    if sn.get('k') == 'struct' and sn.get('adt') == 'Error':
+                        bound[m_['pat']['id']] = sn
+                        deferred.add(id(sn))
+
             def visit(e, conds, env):
-                if e.get('k') == 'struct' and e.get('adt') == 'Error':
+                if e.get('k') == 'struct' and e.get('adt') == 'Error' and id(e) not in deferred:
                     sites.append((W.root_fn, W.cur_fn, e, conds, dict(env)))
+                elif e.get('k') == 'path' and e.get('res') == 'local' and e.get('id') in bound:
+                    sites.append((W.root_fn, W.cur_fn, bound[e['id']], conds, dict(env)))
             W = core.PathWalker(visit, facts, inline)
             return W
         for fn in facts.fns.values():
